@@ -13,7 +13,7 @@ from eqsig.fns import frequency as fq
 from eqsig import stockwell as sw
 import eqsig.im
 
-DRIVER = os.environ.get("EQSIG_DRIVER", "/tmp/lw_fourier/.lake/build/bin/eqsig_driver")
+DRIVER = os.environ.get("EQSIG_DRIVER", "/tmp/lw_fourier/.lake/build/bin/eqsig_driver")  # any eqsig_driver whose Handlers/All.lean lists Fourier.handlers
 REL = 1e-9
 
 def fb(x):  # float -> wire token
